@@ -16,6 +16,10 @@ def dec(v):
         return set(v[1])
     if k == 'f':
         return float.fromhex(v[1])
+    if k == 'list':
+        return list(v[1])
+    if k == 'tuple':
+        return tuple(dec(x) for x in v[1])
     return v[1]
 
 
